@@ -121,6 +121,9 @@ def main():
                     continue
                 at.append({"op": "assemble_trace", "P": P, "N": N, "seed": ck.seed * 977 + k, "init": init, "max": mx, "temps": temps,
                            "steps": 8 if quick else 25, "F": [0.0, 0.2][k % 2]})
+    for k2, temps in enumerate(([1.0], [0.3, 1.0])):
+        at.append({"op": "assemble_trace", "P": 2 + k2, "N": 3, "seed": ck.seed * 977 + 5000 + k2, "init": 4, "max": 64, "temps": temps,
+                   "steps": 6 if quick else 20, "F": 0.0, "huge_counts": True})
     res = pool.map_tasks("impl.c09", at, mode="py")
     docs = []
     for t, rr in zip(at, res):
